@@ -11,6 +11,7 @@ HC = vlib.HARNESS / "codec"
 GEN = vlib.BUILD / "gen_codec"
 FLAGS = ["-fno-access-control", "-I", str(HC)]
 INVS = "ReservedWrittenConsumed CacheIndexInBounds CacheReadsMatchPushes Snapshot"
+CEX = []     # model-level counterexamples of this run (histories), always replayed
 
 
 # ----------------------------------------------------------------------------------------- harness pieces
@@ -46,6 +47,34 @@ def run_bin(exe, only=(), timeout=300):
         vlib.rm(d)
 
 
+def run_unit(exe, case_ids, timeout=600):
+    """Runs one unit over all its cases. A crash (the real code dying is an observation, not an infrastructure error)
+    is attributed to the case that was running (CaseBegin marker), confirmed by re-running the same prefix of cases,
+    and the remaining cases are run in a new process. Returns (records, crashes, timed_out) with
+    crashes = [(case_id, prefix_ids, rc, repeated)]."""
+    recs_all, crashes, todo, first = [], [], list(case_ids), True
+    while todo:
+        rc, recs = run_bin(exe, only=[] if first else todo, timeout=timeout)
+        recs_all += recs
+        if rc == 0:
+            break
+        if rc == -9:
+            return recs_all, crashes, True
+        begun = [r["case"] for r in recs if r.get("e") == "CaseBegin" and r["case"] in todo]
+        x = begun[-1] if begun else todo[0]
+        prefix = todo[:todo.index(x) + 1]
+        rc2, _ = run_bin(exe, only=prefix, timeout=timeout)
+        crashes.append((x, prefix, rc, rc2 != 0))
+        todo = todo[todo.index(x) + 1:]
+        first = False
+    return recs_all, crashes, False
+
+
+def prefix_of(cs, cid):
+    ids = [c["id"] for c in cs]
+    return ids[:ids.index(cid) + 1]
+
+
 def measure_consts():
     """constants of the code under test, printed by the runtime from the real objects (+ header bytes measured by
     logging a statement without arguments)"""
@@ -77,7 +106,7 @@ def cfg_text(c, pool="none", threads="{1}", maxstmts=1, maxargs=1, maxargsfirst=
             f" Threads = {threads}\n MaxStmts = {maxstmts}\n MaxArgs = {maxargs}\n MaxArgsFirst = {maxargsfirst or maxargs}\n"
             f" MaxPending = {maxpending}\n PoolName = \"{pool}\"\n DynChoices = {dyn}\n Export = {b(export)}\n Sim = {b(sim)}\n"
             f" SimDepth = {simdepth}\n ClearRule = \"{clear}\"\n DecodeRule = \"{decode}\"\n MutateSref = {b(mutsref)}\n"
-            f"INVARIANTS {invariants}\nVIEW StateView\nACTION_CONSTRAINT ExportA\nCHECK_DEADLOCK FALSE\n")
+            + (f"INVARIANTS {invariants}\n" if invariants else "") + "VIEW StateView\nACTION_CONSTRAINT ExportA\nCHECK_DEADLOCK FALSE\n")
 
 
 def tlc_codec(ck, label, c, coverage=False, expect_violation=None, simulate=None, seed=None, timeout=900, workers=None, **kw):
@@ -91,10 +120,22 @@ def tlc_codec(ck, label, c, coverage=False, expect_violation=None, simulate=None
     if r.error:
         raise vlib.Infra(f"TLC {label}: {r.error}\n{r.out[-1500:]}")
     if r.violated:
-        # the transcription of the unchanged code violates its own invariant: a model-level counterexample. It is
-        # never a verdict by itself (DESIGN 2.4); surfaced as an infrastructure problem with the history.
+        # Codec.tla instantiated with the constants measured on this tree violates its own invariant: a model-level
+        # counterexample. It is never a verdict by itself (DESIGN 2.4): the history is replayed on the real code and only
+        # the contract's judgement of that real execution counts. The config is re-run without invariants for its export.
         h = r.trace[-1].get("hist") if r.trace else None
-        raise vlib.Infra(f"Codec model violates {r.violated} in {label}: {json.dumps(h)[:1500]}")
+        if not h:
+            raise vlib.Infra(f"Codec model violates {r.violated} in {label} but no counterexample was dumped")
+        CEX.append(h)
+        ck.drifted(f"Codec.tla with the constants measured on this tree violates {r.violated} ({label}); counterexample replayed on the code")
+        ck.extra.setdefault("model_counterexamples", []).append({"config": label, "invariant": r.violated, "history": h})
+        if kw.get("export"):
+            kw2 = dict(kw, invariants="")
+            cfg = vlib.write_cfg(vlib.BUILD / "cfg" / f"C04_{ck.prop}_{label}_noinv.cfg", cfg_text(c, **kw2))
+            r = vlib.tlc("Codec", cfg, timeout=timeout, simulate=simulate, depth=12 if simulate else None, seed=seed, workers=workers)
+            if r.error:
+                raise vlib.Infra(f"TLC {label} (export without invariants): {r.error}")
+        coverage = False
     if coverage:
         for act in ("ASize", "AEncode", "AMutate", "ADrain"):
             if r.coverage.get(act, (0, 0))[1] == 0:
@@ -104,7 +145,12 @@ def tlc_codec(ck, label, c, coverage=False, expect_violation=None, simulate=None
         m = re.search(r"The number of states generated: (\d+)", r.out)
         if m:
             r.generated = r.distinct = int(m.group(1))
-    ck.add_tlc(r, label)
+    if ck.prop == "C04":
+        ck.add_tlc(r, label)
+    else:
+        # C11: these runs only GENERATE the cases; its own TLC evidence is the trace automaton
+        ck.extra.setdefault("case_generation_tlc_runs", []).append({"config": label, "distinct": r.distinct, "generated": r.generated})
+    vlib.log(f"[tlc] {label}: {r.distinct} distinct / {r.generated} generated, {r.wall:.1f}s")
     return r
 
 
@@ -132,13 +178,36 @@ def calls(b):
 
 
 # ----------------------------------------------------------------------------------------- the whole front half
-def prepare(ck):
-    """runs the model-level part and produces the cases; returns a dict used by both checks"""
+def _prep_key(ck, c):
+    import hashlib
+    h = hashlib.sha1()
+    for p in (vlib.SPEC / "Codec.tla", Path(__file__), Path(gen_codec.__file__)):
+        h.update(p.read_bytes())
+    # the cases are a function of (spec, generator, constants measured on the code, tier, seed) only
+    h.update(json.dumps([ck.tier, ck.seed, {k: v for k, v in c.items() if k != "e"}], sort_keys=True).encode())
+    return h.hexdigest()[:16]
+
+
+def prepare(ck, use_cache=False):
+    """runs the model-level part and produces the cases; returns a dict used by both checks.
+    use_cache: C11 only needs the CASES (its TLC evidence is the trace automaton); it reuses the case list an earlier
+    run produced for the same /repo/include, spec, generator, tier and seed (same rule as the build cache)."""
     quick = ck.tier == "quick"
     rng = random.Random(ck.seed)
     t0 = time.time()
+    del CEX[:]
     c, rt = measure_consts()
     c["ptr"] = c.get("ptr", 8)
+    cache = GEN / f"cases_{ck.tier}_{_prep_key(ck, c)}.json"
+    if (use_cache or os.environ.get("VERIF_CODEC_REUSE_CASES")) and cache.exists():
+        try:
+            j = json.loads(cache.read_text())
+            ck.extra["constants_from_code"] = {k: v for k, v in c.items() if k != "e"}
+            ck.extra["cases_from"] = "case list generated by TLC from Codec.tla in an earlier run with identical inputs (cached)"
+            ck.extra["behaviours_exported"] = j.get("exported")
+            return dict(consts=c, rt=rt, cases=j["cases"])
+        except Exception:
+            pass
     ck.extra["constants_from_code"] = {k: v for k, v in c.items() if k != "e"}
     cap = c["cachecap"]
     vlib.log(f"[codec] constants {time.time() - t0:.1f}s: {ck.extra['constants_from_code']}")
@@ -153,19 +222,19 @@ def prepare(ck):
     b_d2 = maximal(vlib.behaviours(r_d2))
     # 3. export: pairs incl. two calls before one drain
     r_p = tlc_codec(ck, "Export_pairs", c, pool="pairs", maxstmts=2, maxargs=1 if quick else 2, maxargsfirst=1,
-                    maxpending=2, dyn="{FALSE}", export=True)
+                    maxpending=2, dyn="{FALSE}", export=True, workers=1)   # 1 worker: the history attached to a VIEW state is deterministic
     b_p = [b for b in maximal(vlib.behaviours(r_p)) if len(calls(b)) == 2]
     # 4. two threads: the cache is per thread
     tlc_codec(ck, "MC_two_threads", c, pool="cstr", threads="{1, 2}", maxstmts=1, maxargs=2, maxpending=1)
     # 5. up to cap + 1 variable-length C strings in one statement
-    r_w = tlc_codec(ck, "MC_wide", c, pool="cstr", maxstmts=2, maxargs=cap + 1, maxpending=1, export=True)
+    r_w = tlc_codec(ck, "MC_wide", c, pool="cstr", maxstmts=2, maxargs=cap + 1, maxpending=1, export=True, workers=1)
     b_w = maximal(vlib.behaviours(r_w))
     b_d3 = []
     if not quick:
         r_d3 = tlc_codec(ck, "MC_depth3", c, pool="depth3", maxstmts=1, maxargs=1, export=True, timeout=1500)
         b_d3 = maximal(vlib.behaviours(r_d3))
     # 6. simulation: random statements (<= 3 arguments, all kinds, full shape sets), two per thread
-    nsim = 130 if quick else 1500
+    nsim = 110 if quick else 1500
     r_s = tlc_codec(ck, "Sim", c, sim=True, simdepth=2 if quick else 3, maxstmts=2, maxargs=3, maxpending=2,
                     dyn="{FALSE, FALSE, TRUE}" if False else "{FALSE, TRUE}", export=True, simulate=nsim, seed=ck.seed, workers=1)
     b_s = maximal(vlib.behaviours(r_s))
@@ -178,7 +247,7 @@ def prepare(ck):
     ck.extra["self_test"] = "3 seeded spec bugs (clear rule, strlen decode, StringRef mutation) reported by TLC"
     vlib.log(f"[codec] TLC done {time.time() - t0:.1f}s: depth2={len(b_d2)} pairs={len(b_p)} wide={len(b_w)} depth3={len(b_d3)} sim={len(b_s)}")
 
-    chosen = select(rng, quick, cap, b_d2, b_p, b_w, b_d3, b_s)
+    chosen = [("model-counterexample", h, 0, None) for h in CEX] + select(rng, quick, cap, b_d2, b_p, b_w, b_d3, b_s)
     cases, dropped = [], 0
     for origin, beh, fresh, big in chosen:
         try:
@@ -187,15 +256,30 @@ def prepare(ck):
             dropped += 1
     ck.extra["behaviours_exported"] = {"depth2": len(b_d2), "pairs": len(b_p), "wide": len(b_w), "depth3": len(b_d3), "sim": len(b_s)}
     ck.extra["cases_unrealisable_in_cpp"] = dropped
+    for old in GEN.glob(f"cases_{ck.tier}_*.json"):
+        old.unlink()
+    cache.write_text(json.dumps({"cases": cases, "exported": ck.extra["behaviours_exported"]}))
     return dict(consts=c, rt=rt, cases=cases)
 
 
 def select(rng, quick, cap, b_d2, b_p, b_w, b_d3, b_s):
     """stratified, seeded choice of the behaviours that are replayed on the real code"""
     out = []
-    # depth2: every kind at least twice, then distinct type skeletons
-    by_type = {}
+    # depth2, leaves: EVERY shape of every leaf type (null pointer, unterminated / embedded-NUL arrays and strings, ...)
+    leaf_groups, comp = {}, []
     for b in b_d2:
+        a0 = calls(b)[0]["args"][0]
+        if not a0["ty"]["p"]:
+            leaf_groups.setdefault(gen_codec.tystr(a0["ty"]) + json.dumps(a0["val"]), []).append(b)
+        else:
+            comp.append(b)
+    for g in sorted(leaf_groups):
+        out.append(("depth2", rng.choice(leaf_groups[g]), 0, None))
+        if not quick:
+            out.append(("depth2", rng.choice(leaf_groups[g]), 0, None))
+    # depth2, composites: every kind at least twice, then distinct type skeletons
+    by_type = {}
+    for b in comp:
         by_type.setdefault(gen_codec.tystr(calls(b)[0]["args"][0]["ty"]), []).append(b)
     types = sorted(by_type)
     rng.shuffle(types)
@@ -208,11 +292,15 @@ def select(rng, quick, cap, b_d2, b_p, b_w, b_d3, b_s):
             for k in ks:
                 need[k] = need.get(k, 0) + 1
     rest = [t for t in types if t not in set(picked_types)]
-    n_d2 = 95 if quick else 1300
+    n_d2 = 62 if quick else 1000
     picked_types += rest[:max(0, n_d2 - len(picked_types))]
+
+    def weight(b):      # prefer the shapes with more elements
+        return len(json.dumps(calls(b)[0]["args"][0]["val"]))
     for t in picked_types:
         bs = by_type[t]
-        out.append(("depth2", rng.choice(bs), 0, None))
+        big = sorted(bs, key=weight)[len(bs) // 2:]
+        out.append(("depth2", rng.choice(big if rng.random() < 0.6 else bs), 0, None))
         if not quick and len(bs) > 1:
             out.append(("depth2", rng.choice(bs), 0, None))
     # pairs: prefer a stale cache longer than what the second statement pushes, and both drain orders
@@ -223,7 +311,7 @@ def select(rng, quick, cap, b_d2, b_p, b_w, b_d3, b_s):
     p2 = [b for b in b_p if not stale(b)]
     rng.shuffle(p1)
     rng.shuffle(p2)
-    n_p = 50 if quick else 600
+    n_p = 40 if quick else 600
     for b in p1[:n_p * 2 // 3] + p2[:n_p // 3]:
         out.append(("pairs", b, 0, None))
     # wide: single statements with 1, cap-1, cap, cap+1 C strings; pairs spill -> small
@@ -240,7 +328,7 @@ def select(rng, quick, cap, b_d2, b_p, b_w, b_d3, b_s):
     for b in b_d3 if len(b_d3) <= 400 else rng.sample(b_d3, 400):
         out.append(("depth3", b, 0, None))
     # simulation
-    for b in b_s[: 100 if quick else 1100]:
+    for b in b_s[: 85 if quick else 1100]:
         out.append(("sim", b, 0, None))
     rng.shuffle(out)
     # a few cases run on a fresh thread (first call / after preallocate()), one oversized statement in the middle
@@ -260,7 +348,7 @@ def select(rng, quick, cap, b_d2, b_p, b_w, b_d3, b_s):
 
 def build_and_run(ck, prep, per_tu=None):
     """generate the translation units, compile them in parallel, run them in parallel.
-    Returns list of (tu_index, exe, cases_of_tu, rc, records)."""
+    Returns list of (tu_index, exe, cases_of_tu, crashes, records)."""
     quick = ck.tier == "quick"
     cases = prep["cases"]
     per_tu = per_tu or (20 if quick else 48)
@@ -279,7 +367,7 @@ def build_and_run(ck, prep, per_tu=None):
         exes = list(ex.map(lambda j: build_tu(j[0], j[1], prep["rt"]), jobs))
     t1 = time.time()
     with ThreadPoolExecutor(max_workers=vlib.NCPU) as ex:
-        res = list(ex.map(lambda e: run_bin(e, timeout=600), exes))
+        res = list(ex.map(lambda ke: run_unit(ke[1], [c["id"] for c in tus[ke[0]]]), enumerate(exes)))
     vlib.log(f"[codec] {len(cases)} cases in {len(tus)} units: compile {t1 - t0:.1f}s, run {time.time() - t1:.1f}s")
     ck.extra["translation_units"] = len(tus)
     ck.extra["compile_s"] = round(t1 - t0, 1)
@@ -287,4 +375,9 @@ def build_and_run(ck, prep, per_tu=None):
     for old in GEN.glob(f"tu_{tag}*.cpp"):
         if old.name not in {j[1].name for j in jobs}:
             old.unlink()
-    return [(k, exes[k], tus[k], res[k][0], res[k][1]) for k in range(len(tus))]
+    for k, (recs, crashes, timed_out) in enumerate(res):
+        if timed_out:
+            raise vlib.Infra(f"harness unit {k} timed out")
+    ck.extra["crashes_of_the_code_under_test"] = sum(len(r[1]) for r in res)
+    # (unit index, exe, cases, crashes, records)
+    return [(k, exes[k], tus[k], res[k][1], res[k][0]) for k in range(len(tus))]
